@@ -361,6 +361,20 @@ struct Found<S> {
     v: Violation,
 }
 
+/// kernel thread id of the calling thread (Linux), 0 if unknown
+fn own_tid() -> u64 {
+    std::fs::read_link("/proc/thread-self").ok().and_then(|p| p.file_name().and_then(|n| n.to_str().and_then(|s| s.parse().ok()))).unwrap_or(0)
+}
+
+/// CPU time (user + system, in clock ticks of 10 ms) consumed so far by thread `tid` of this process
+fn cpu_ticks(tid: u64) -> Option<u64> {
+    let s = std::fs::read_to_string(format!("/proc/self/task/{}/stat", tid)).ok()?;
+    let rest = &s[s.rfind(')')? + 2..];
+    let f: Vec<&str> = rest.split_whitespace().collect();
+    // after the command name: state(0) ppid(1) ... utime is field 14 overall = index 11 here, stime index 12
+    Some(f.get(11)?.parse::<u64>().ok()? + f.get(12)?.parse::<u64>().ok()?)
+}
+
 pub fn run_batch<P: Prop>(o: &Opts) -> i32 {
     let t0 = Instant::now();
     let n_seeded = o.runs_override.unwrap_or_else(|| P::runs(o.tier));
@@ -372,8 +386,8 @@ pub fn run_batch<P: Prop>(o: &Opts) -> i32 {
     let next = Arc::new(AtomicU64::new(0));
     let stop = Arc::new(AtomicBool::new(false));
     let systematic = Arc::new(systematic);
-    // per worker: (current run index + 1, start millis since t0)
-    let cur: Arc<Vec<(AtomicU64, AtomicU64)>> = Arc::new((0..o.jobs).map(|_| (AtomicU64::new(0), AtomicU64::new(0))).collect());
+    // per worker: (current run index + 1, start millis since t0, kernel thread id, cpu ticks at run start)
+    let cur: Arc<Vec<(AtomicU64, AtomicU64, AtomicU64, AtomicU64)>> = Arc::new((0..o.jobs).map(|_| (AtomicU64::new(0), AtomicU64::new(0), AtomicU64::new(0), AtomicU64::new(0))).collect());
     let results: Arc<Mutex<Vec<(u64, RunStats, Option<Found<P::Scn>>, Option<String>, Option<String>)>>> = Arc::new(Mutex::new(Vec::new()));
     let samples: Arc<Mutex<BTreeMap<u64, Value>>> = Arc::new(Mutex::new(BTreeMap::new()));
     let tier = o.tier;
@@ -393,6 +407,8 @@ pub fn run_batch<P: Prop>(o: &Opts) -> i32 {
             .stack_size(64 << 20)
             .spawn(move || {
                 let mut local = Vec::new();
+                let tid = own_tid();
+                cur[w].2.store(tid, Ordering::Relaxed);
                 loop {
                     if stop.load(Ordering::Relaxed) {
                         break;
@@ -407,6 +423,7 @@ pub fn run_batch<P: Prop>(o: &Opts) -> i32 {
                         break;
                     }
                     cur[w].1.store(t0.elapsed().as_millis() as u64, Ordering::Relaxed);
+                    cur[w].3.store(cpu_ticks(tid).unwrap_or(0), Ordering::Relaxed);
                     cur[w].0.store(i + 1, Ordering::Relaxed);
                     let scn = if i < n_sys {
                         systematic[i as usize].clone()
@@ -453,7 +470,17 @@ pub fn run_batch<P: Prop>(o: &Opts) -> i32 {
         for w in 0..o.jobs {
             let i1 = cur[w].0.load(Ordering::Relaxed);
             let st = cur[w].1.load(Ordering::Relaxed);
-            if i1 > 0 && now.saturating_sub(st) > limit_ms {
+            if i1 == 0 || now.saturating_sub(st) <= limit_ms {
+                continue;
+            }
+            // A run is hung when it has *consumed* more CPU time than the limit (a loop that does not
+            // terminate), not merely when the wall clock moved on while the machine was busy elsewhere;
+            // a run that is blocked without consuming anything is hung after 20x the limit.
+            let tid = cur[w].2.load(Ordering::Relaxed);
+            let used_ms = cpu_ticks(tid).map(|t| t.saturating_sub(cur[w].3.load(Ordering::Relaxed)) * 10);
+            let busy_too_long = used_ms.map(|u| u > limit_ms).unwrap_or(true);
+            let blocked_too_long = now.saturating_sub(st) > limit_ms * 20;
+            if (busy_too_long || blocked_too_long) && cur[w].0.load(Ordering::Relaxed) == i1 {
                 hung = Some(i1 - 1);
             }
         }
@@ -725,7 +752,8 @@ pub fn replay<P: Prop>(path: &str, rf: &ReplayFile) -> i32 {
             });
         })
         .expect("spawn");
-    let got = match rx.recv_timeout(limit) {
+    // generous in wall time (the machine may be busy); the batch runner's own watchdog goes by CPU time
+    let got = match rx.recv_timeout(limit * 2) {
         Ok(x) => x,
         Err(_) => Some(Violation::new("hang", "wall-limit", format!("did not finish within {} s", limit.as_secs()))),
     };
